@@ -122,6 +122,11 @@ fn node_abstract(vocab: &Vocab, t: &GTree, problems: &mut BTreeSet<String>) -> O
             if !t.kids.is_empty() {
                 problems.insert("leaf-with-children".into());
             }
+            // a PI target is a bare name: the id the parser gave it must denote (target, no namespace)
+            // whatever default namespace is in scope (seed C08h)
+            if vocab.names[*target].1 != 0 {
+                problems.insert("processing-instruction-target-in-a-namespace".into());
+            }
             Some(ANode::PI(vocab.names[*target].0.clone(), d.clone()))
         }
         GValue::Element(n) => {
